@@ -297,8 +297,15 @@ func cmdCheck(args []string) {
 	ev.wall = time.Since(start).Seconds()
 	ev.write()
 	if exit == 0 {
-		if ev.runs == 0 || ev.workerErrors > 0 || ev.harnessErrs*10 > ev.runs {
-			fmt.Printf("HARNESS-TROUBLE property=%s runs=%d harness_errors=%d worker_errors=%d\n", id, ev.runs, ev.harnessErrs, ev.workerErrors)
+		degraded := ev.harnessErrs*10 > ev.runs
+		if degraded && len(ev.otherProps) > 0 && len(ev.distinct) >= 2 && ev.workerErrors == 0 {
+			// the stubs could not make progress because the library violates
+			// *other* properties in these runs; that is their checks' business
+			fmt.Printf("NOTE property=%s exploration degraded by violations of other properties: %v\n", id, ev.otherProps)
+			degraded = false
+		}
+		if ev.runs == 0 || ev.workerErrors > 0 || degraded || len(ev.distinct) < 2 {
+			fmt.Printf("HARNESS-TROUBLE property=%s runs=%d nontrivial=%d harness_errors=%d worker_errors=%d other_property_violations=%v\n", id, ev.runs, len(ev.distinct), ev.harnessErrs, ev.workerErrors, ev.otherProps)
 			for _, s := range ev.harnessSamples {
 				fmt.Println("  ", s)
 			}
